@@ -120,13 +120,12 @@ def run(ck):
 
     # ---- callbacks re-entering the client from a reply callback (tail position of handleResponse)
     L.reentrant_part(ck, rnd, 500 * scale, THEOREMS_BC)
-    if L.NATIVE_READY:
-        L.reentrant_part(ck, rnd, 400 * scale, ["C06_exactly_once_reentrant", "C06_nothing_after_fired_reentrant"], native=True)
+    L.tree_part(ck, rnd, 400 * scale, ["C06_exactly_once_reentrant", "C06_nothing_after_fired_reentrant"])
 
     # ---- exhaustive small scope
     L.exhaustive(ck, 7 if thorough else 6, "whole", WHICH, THEOREMS_BC, rnd)
-    if L.NATIVE_READY:
-        L.exhaustive(ck, 7 if thorough else 5, "hook", WHICH, ["C06_exactly_once_reentrant", "C06_nothing_after_fired_reentrant"], rnd)
+    for hk in sorted(L.HOOK_TABLES):
+        L.exhaustive(ck, 7 if thorough else 5, hk, WHICH, ["C06_exactly_once_reentrant", "C06_nothing_after_fired_reentrant"], rnd)
     if thorough:
         L.exhaustive(ck, 7, "split", WHICH, THEOREMS_BC, rnd)
         ck.coqchk(["AV.Props.C06"])
@@ -159,6 +158,8 @@ def replay(rp):
         return L.replay_bc(rp)
     if op == "bc-hook":
         return L.replay_hook(rp)
+    if op == "bc-tree":
+        return L.replay_tree(rp)
     if op == "rx":
         chunks = [bytes(c) for c in rp["chunks"]]
         tr, calls = F.impl_receiver(chunks)
